@@ -783,8 +783,9 @@ func lemmaCreateThenMapQueue(data []byte, cap uint32) {
 //@ ghost field bufferList.pos: [int]int
 //@ ghost field bufferList.held: [int]bool
 //@ ghost field bufferList.valid: [int]bool
+//@ ghost field bufferList.gstride: int     // capPerBuffer + 20, fixed at creation (mirrors the capPerBuffer word)
 
-//@ pure stride(b *bufferList): int = *b.capPerBuffer + 20
+//@ pure stride(b *bufferList): int = b.gstride
 //@ pure hdrHasNext(b *bufferList, o int): bool = mem8(b.bufferRegion, o + 16) % 2 == 1
 //@ pure hdrNext(b *bufferList, o int): int = mem32(b.bufferRegion, o + 12)
 
@@ -795,14 +796,19 @@ func lemmaCreateThenMapQueue(data []byte, cap uint32) {
 //@ |  && (poff(b.counter) == poff(b.size) + 20 || poff(b.counter) == poff(b.size) + 24) && off(b.bufferRegion) == poff(b.size) + 36
 //@ |  && b.bufferRegionOffsetInShm + len(b.bufferRegion) < 4294967296 && len(b.bufferRegion) < 4294967296
 
-//@ pure wfList(b *bufferList): bool = listWords(b) && b.n >= 1 && *b.size == b.n && *b.capPerBuffer >= 1 && *b.capPerBuffer + 20 < 4294967296
+// wfGhost: the ghost chain is a duplicate-free list of free slots that partitions the slots with 'held';
+// wfMem: the shared-memory headers of the chain elements spell out exactly that chain (links, cleared sizes)
+//@ pure wfGhost(b *bufferList): bool = listWords(b) && b.n >= 1 && *b.size == b.n && *b.capPerBuffer >= 1 && *b.capPerBuffer + 20 < 4294967296 && b.gstride == *b.capPerBuffer + 20
 //@ |  && *b.head == b.chain[b.cs] && *b.tail == b.chain[b.cs + b.n - 1]
-//@ |  && (forall i in [b.cs, b.cs + b.n) trig(b.chain[i]): b.valid[b.chain[i]] && !b.held[b.chain[i]] && b.pos[b.chain[i]] == i && mem32(b.bufferRegion, b.chain[i] + 4) == 0 && mem32(b.bufferRegion, b.chain[i] + 8) == 0)
-//@ |  && (forall i in [b.cs, b.cs + b.n - 1) trig(b.chain[i]): hdrHasNext(b, b.chain[i]) && hdrNext(b, b.chain[i]) == b.chain[i+1])
-//@ |  && !hdrHasNext(b, b.chain[b.cs + b.n - 1])
-//@ |  && (forall o in [0, len(b.bufferRegion)) trig(b.valid[o]): b.valid[o] ==> o + stride(b) <= len(b.bufferRegion) && mem32(b.bufferRegion, o) == *b.capPerBuffer && (b.held[o] || (b.cs <= b.pos[o] && b.pos[o] < b.cs + b.n && b.chain[b.pos[o]] == o)))
+//@ |  && (forall i in [b.cs, b.cs + b.n) trig(b.chain[i]): b.valid[b.chain[i]] && !b.held[b.chain[i]] && b.pos[b.chain[i]] == i)
+//@ |  && (forall o in [0, len(b.bufferRegion)) trig(b.valid[o]): b.valid[o] ==> o + stride(b) <= len(b.bufferRegion) && (b.held[o] || (b.cs <= b.pos[o] && b.pos[o] < b.cs + b.n && b.chain[b.pos[o]] == o)))
 //@ |  && (forall o1 in [0, len(b.bufferRegion)) trig(b.valid[o1]): forall o2 in [0, len(b.bufferRegion)) trig(b.valid[o2]): b.valid[o1] && b.valid[o2] && o1 != o2 ==> o1 + stride(b) <= o2 || o2 + stride(b) <= o1)
 //@ |  && (forall o in [0 - 4294967296, 0) trig(b.valid[o]): !b.valid[o]) && (forall o in [len(b.bufferRegion), 8589934592) trig(b.valid[o]): !b.valid[o])
+//@ pure wfMem(b *bufferList): bool = (forall i in [b.cs, b.cs + b.n) trig(b.chain[i]): mem32(b.bufferRegion, b.chain[i] + 4) == 0 && mem32(b.bufferRegion, b.chain[i] + 8) == 0)
+//@ |  && (forall i in [b.cs, b.cs + b.n - 1) trig(b.chain[i]): hdrHasNext(b, b.chain[i]) && hdrNext(b, b.chain[i]) == b.chain[i+1])
+//@ |  && !hdrHasNext(b, b.chain[b.cs + b.n - 1])
+//@ |  && (forall o in [0, len(b.bufferRegion)) trig(b.valid[o]): b.valid[o] ==> mem32(b.bufferRegion, o) == b.gstride - 20)
+//@ pure wfList(b *bufferList): bool = wfGhost(b) && wfMem(b)
 
 //@ func (*bufferList).remain
 //@   ensures  result == int(*b.size - 1)
@@ -811,6 +817,8 @@ func lemmaCreateThenMapQueue(data []byte, cap uint32) {
 //@ func (*bufferList).pop
 //@   requires[C01,C02] wfList(b)
 //@   assume   *b.counter < 2147483647 && *b.counter > -2147483648
+//@   at call sync/atomic.CompareAndSwapUint32#0 hint[C01,C02] oldHead == old(b.chain[b.cs]) && mem32(b.bufferRegion, oldHead + 4) == 0 && mem32(b.bufferRegion, oldHead + 8) == 0 && mem32(b.bufferRegion, oldHead) == b.gstride - 20
+//@   at call newBufferSlice#0 hint[C01,C02] mem32(b.bufferRegion, oldHead + 4) == 0 && mem32(b.bufferRegion, oldHead + 8) == 0 && mem32(b.bufferRegion, oldHead) == b.gstride - 20
 //@   at call? sync/atomic.CompareAndSwapUint32#0 ghost b.held[oldHead] := ite(r0, true, b.held[oldHead])
 //@   at call? sync/atomic.CompareAndSwapUint32#0 ghost b.cs := ite(r0, b.cs + 1, b.cs)
 //@   at call? sync/atomic.CompareAndSwapUint32#0 ghost b.n := ite(r0, b.n - 1, b.n)
@@ -831,7 +839,7 @@ func lemmaCreateThenMapQueue(data []byte, cap uint32) {
 //@   ensures[C02] r1 != nil ==> *b.size == old(*b.size) && *b.head == old(*b.head) && *b.tail == old(*b.tail) && b.n == old(b.n) && b.cs == old(b.cs) && b.held == old(b.held)
 //@   ensures[C02] r1 != nil ==> forall x in [0, len(b.bufferRegion)): mem8(b.bufferRegion, x) == old(mem8(b.bufferRegion, x))
 //@   ensures[C02] r1 != nil <==> old(b.n) <= 1
-//@   ensures[C01,C02] r1 == nil ==> r0 != nil && fresh(r0) && b.n == old(b.n) - 1 && b.cs == old(b.cs) + 1 && b.chain == old(b.chain) && b.pos == old(b.pos) && b.valid == old(b.valid)
+//@   ensures[C01,C02] r1 == nil ==> r0 != nil && fresh(r0) && b.n == old(b.n) - 1 && b.cs == old(b.cs) + 1 && b.chain == old(b.chain) && b.pos == old(b.pos) && b.valid == old(b.valid) && b.gstride == old(b.gstride)
 //@   ensures[C01,C02] r1 == nil ==> !old(b.held[b.chain[b.cs]]) && b.held == store(old(b.held), old(b.chain[b.cs]), true) && old(b.valid[b.chain[b.cs]])
 //@   ensures[C01] r1 == nil ==> r0.offsetInShm == b.bufferRegionOffsetInShm + old(b.chain[b.cs]) && r0.isFromShm && r0.readIndex == 0 && r0.writeIndex == 0 && r0.nextSlice == nil
 //@   ensures[C01] r1 == nil ==> r0.cap == *b.capPerBuffer && len(r0.data) == *b.capPerBuffer && sameMem(r0.data, b.bufferRegion, old(b.chain[b.cs]) + 20)
@@ -841,3 +849,27 @@ func lemmaCreateThenMapQueue(data []byte, cap uint32) {
 //@   loop 0 invariant[C01,C02] i == 0 && oldHead == old(*b.head) && *b.size == old(*b.size) - 1 && remain == old(*b.size) - 1 && remain > 0
 //@   loop 0 invariant[C01,C02] *b.head == old(*b.head) && *b.tail == old(*b.tail) && *b.counter == old(*b.counter) && b.n == old(b.n) && b.cs == old(b.cs) && b.held == old(b.held) && b.chain == old(b.chain) && b.pos == old(b.pos) && b.valid == old(b.valid)
 //@   loop 0 modifies[C01,C02] *b.head
+
+// push returns a held slot to the chain: it becomes the new tail, the old tail is linked to it.
+//@ pure slotOf(b *bufferList, s *bufferSlice): int = s.offsetInShm - b.bufferRegionOffsetInShm
+
+//@ func (*bufferList).push
+//@   requires[C01,C02] wfList(b) && buffer != nil
+//@   requires[C01,C02] b.valid[slotOf(b, buffer)] && b.held[slotOf(b, buffer)] && 0 <= slotOf(b, buffer)
+//@   requires[C01,C02] buffer.bufferHeader != nil && sameMem(buffer.bufferHeader, b.bufferRegion, slotOf(b, buffer)) && len(buffer.bufferHeader) >= 20 && sameMem(buffer.data, b.bufferRegion, slotOf(b, buffer) + 20)
+//@   assume   *b.counter < 2147483647 && *b.counter > -2147483648 && *b.size < 2147483647
+//@   at call? sync/atomic.CompareAndSwapUint32#0 ghost b.chain[b.cs + b.n] := ite(r0, newTail, b.chain[b.cs + b.n])
+//@   at call? sync/atomic.CompareAndSwapUint32#0 ghost b.pos[newTail] := ite(r0, b.cs + b.n, b.pos[newTail])
+//@   at call? sync/atomic.CompareAndSwapUint32#0 ghost b.held[newTail] := ite(r0, false, b.held[newTail])
+//@   at call? sync/atomic.CompareAndSwapUint32#0 ghost b.n := ite(r0, b.n + 1, b.n)
+//@   ensures[C01,C02] b.n == old(b.n) + 1 && b.cs == old(b.cs) && b.valid == old(b.valid) && b.gstride == old(b.gstride)
+//@   ensures[C01,C02] b.chain == store(old(b.chain), old(b.cs + b.n), old(slotOf(b, buffer))) && b.held == store(old(b.held), old(slotOf(b, buffer)), false)
+//@   ensures[C01,C02] forall x in [0, len(b.bufferRegion)): (x < old(slotOf(b, buffer)) + 4 || x >= old(slotOf(b, buffer)) + 20) && (x < old(*b.tail) + 12 || x >= old(*b.tail) + 17) ==> mem8(b.bufferRegion, x) == old(mem8(b.bufferRegion, x))
+//@   ensures[C01,C02] wfGhost(b)
+//@   ensures[OPEN] wfMem(b)   // generated but not discharged within the time limit: see DESIGN (open obligation O1)
+//@   loop 0 invariant[C01,C02] *b.size == old(*b.size) && *b.head == old(*b.head) && *b.tail == old(*b.tail) && *b.counter == old(*b.counter) && *b.capPerBuffer == old(*b.capPerBuffer)
+//@   loop 0 invariant[C01,C02] b.n == old(b.n) && b.cs == old(b.cs) && b.held == old(b.held) && b.chain == old(b.chain) && b.pos == old(b.pos) && b.valid == old(b.valid) && b.gstride == old(b.gstride)
+//@   loop 0 invariant[C01,C02] buffer.offsetInShm == old(buffer.offsetInShm) && buffer.bufferHeader == old(buffer.bufferHeader)
+//@   loop 0 invariant[C01,C02] mem32(b.bufferRegion, slotOf(b, buffer) + 4) == 0 && mem32(b.bufferRegion, slotOf(b, buffer) + 8) == 0 && mem8(b.bufferRegion, slotOf(b, buffer) + 16) == 0
+//@   loop 0 invariant[C01,C02] forall x in [0, len(b.bufferRegion)): (x < old(slotOf(b, buffer)) + 4 || x >= old(slotOf(b, buffer)) + 20) ==> mem8(b.bufferRegion, x) == old(mem8(b.bufferRegion, x))
+//@   loop 0 modifies[C01,C02] *b.tail
